@@ -18,10 +18,10 @@ import seqcheck
 
 SPEC = {
     "prop": "C01",
-    "lean_targets": ["InfernoVerif.Props.C01", "InfernoVerif.Props.C01Glue", "InfernoVerif.Props.C13Glue", "InfernoVerif.Gen.Dispatch"],
+    "lean_targets": ["InfernoVerif.Props.C01", "InfernoVerif.Props.C01Glue", "InfernoVerif.Props.C01Run", "InfernoVerif.Props.C13Glue", "InfernoVerif.Gen.Dispatch"],
     "translate": ["Infra", "RingProg"],
     "driver_targets": ["InfernoVerif.Model.RingOps", "InfernoVerif.Drv.Proto", "InfernoVerif.Gen.Dispatch"],
-    "prop_files": ["InfernoVerif/Props/C01.lean", "InfernoVerif/Props/C01Glue.lean", "InfernoVerif/Props/C13Glue.lean"],
+    "prop_files": ["InfernoVerif/Props/C01.lean", "InfernoVerif/Props/C01Glue.lean", "InfernoVerif/Props/C01Run.lean", "InfernoVerif/Props/C13Glue.lean"],
     "lemma_files": ["InfernoVerif/Lemmas/Ring.lean"],
     "model_files": ["InfernoVerif/Model/Ring.lean", "InfernoVerif/Model/RingOps.lean"],
     "driver": "drivers/C01.lean",
